@@ -128,6 +128,7 @@ func writeEvidence(prop, profile, tier string, seed uint64, rs []*RunResult, nvi
 		"c17_attack_refusals_by_message_type": c17,
 		"c17_authority_message_types_enumerated_per_run": counters["c17_authority_message_types"] / float64(len(rs)),
 		"governance_edge_parameter_proposals": govedge,
+		"regression_replays":              regressionInfo,
 		"known_findings_seen":             nknown,
 		"real_components":                 []string{"all 17 elys modules (keepers, hooks, begin/end blockers, msg servers)", "elys ante handler chain with real signature verification", "cosmos-sdk baseapp, auth, bank, staking, gov(ccv democracy), authz, distribution, ccv consumer", "IAVL/rootmulti commit store"},
 		"stubbed_components":              []string{"CometBFT consensus, mempool, p2p (SimComet/SimNet)", "disk (SimDB: in-memory dbm.DB with op counting, read-fault injection, crash/restart)", "IBC counterparties, Band oracle, ICS provider (absent)", "wall clock never read by the harness; block time from SimClock"},
